@@ -9,6 +9,9 @@ import Frp.Lemmas.WrapperConc
   client/visitor/visitor_manager.go).
 
   Part H — health counting.   Part W — wrapper phase machine.   Part R — reload diff.
+  (Part V — visitors: Frp/Props/C19Visitors.lean over Frp/Model/VisitorMgr.lean;  Part F — the reload diff per
+  running proxy, any field — and Part S — the configuration a session is started with after a loss of the
+  connection, over C14's Frp/Model/Rereg.lean: Frp/Props/C19Reload.lean.  All are audited by Frp/Audit/C19.lean.)
   Part K — the wrapper's goroutines and its mutex (Frp/Model/WrapperConc.lean): every interleaving
   of the worker iteration, Stop, SetRunningStatus and the monitor callbacks refines the atomic
   machine of Part W, so the theorems of Part W hold for the concurrent code, in particular "a stopped
